@@ -53,6 +53,9 @@ type FOInit struct {
 	AgeNs int64  `json:"age_ns,omitempty"` // how long ago the entry expired
 	// FailAgeNs >= 0: a failure for the key was cached that long ago (-1: none).
 	FailAgeNs int64 `json:"fail_age_ns"`
+	// NilValue: the cached value is a nil interface (a builder once returned (nil, nil)); only the
+	// untyped Failover API can hold one.
+	NilValue bool `json:"nil_value,omitempty"`
 }
 
 // FOOp is one client operation.
@@ -648,16 +651,26 @@ func (r *foRun) initState() {
 	for _, in := range r.sc.Init {
 		k := []byte(r.sc.Keys[in.Key])
 
+		write := func(ctx context.Context) {
+			if in.NilValue && r.be.plain != nil {
+				_ = r.be.plain.Write(ctx, k, nil)
+
+				return
+			}
+
+			_ = r.be.write(ctx, k, Tok{K: string(k), ID: "pre"})
+		}
+
 		switch in.State {
 		case "fresh":
-			_ = r.be.write(ctx, k, Tok{K: string(k), ID: "pre"})
+			write(ctx)
 		case "stale":
 			age := in.AgeNs
 			if age <= 0 {
 				age = 1
 			}
 
-			_ = r.be.write(cache.WithTTL(ctx, -dur(age), false), k, Tok{K: string(k), ID: "pre"})
+			write(cache.WithTTL(ctx, -dur(age), false))
 		}
 
 		if in.FailAgeNs >= 0 && r.api.HasErrors() {
